@@ -165,8 +165,7 @@ def check_inputs_first(ctx: Ctx):
     ctx.check(ok, "MP-inputs-first", rc, "ReCompiler allocates inputs first, in order", "", "", rc.node)
     # add_qubit returns consecutive indices
     aq = repo.func("qcircuit.qcircuit.QCircuit.add_qubit")
-    txt = norm(aq.node)
-    ctx.check("self.qubit_map[name] = self.num_qubits" in txt and "self.num_qubits += 1" in txt and "return self.num_qubits - 1" in txt, "MP-inputs-first", aq, "add_qubit hands out consecutive indices", "", "", aq.node)
+    ctx.section(check_add_qubit, ctx, aq)
 
 
 def check_qubit_lists(ctx: Ctx):
@@ -211,3 +210,36 @@ def check_ret_names(ctx: Ctx):
     # `_ret` symbols kept by the optimizer / truth table: prefix convention is shared
     me = repo.func("boolopt.bool_optimizer.merge_expressions")
     ctx.check("'_ret'" in norm(me.node), "MP-ret-names", me, "optimizer keeps `_ret*` definitions", "", "", me.node)
+
+
+def check_add_qubit(ctx: Ctx, aq):
+    """the index recorded for the new name, and returned, is the number of qubits before the call; the count
+    grows by exactly one.  Positions are compared along the top-level statement list of the method."""
+    body = aq.body
+    cnt = "self.num_qubits"
+    inc = [i for i, s_ in enumerate(body) if (isinstance(s_, ast.AugAssign) and norm(s_.target) == cnt) or (isinstance(s_, ast.Assign) and norm(s_.targets[0]) == cnt)]
+    if len(inc) != 1:
+        raise AnchorError(aq.short, f"{len(inc)} top-level updates of {cnt}: outside the tables")
+    st = body[inc[0]]
+    by_one = (isinstance(st, ast.AugAssign) and isinstance(st.op, ast.Add) and norm(st.value) == "1") or (isinstance(st, ast.Assign) and norm(st.value).replace(" ", "") in (f"{cnt}+1", f"1+{cnt}"))
+    ctx.check(by_one, "MP-inputs-first", aq, "the qubit count grows by one per add_qubit", norm(st), f"`{norm(st)}`", st)
+    # names standing for the old count
+    old = {cnt}
+    for s_ in body[: inc[0]]:
+        if isinstance(s_, ast.Assign) and isinstance(s_.targets[0], ast.Name) and norm(s_.value) == cnt:
+            old.add(s_.targets[0].id)
+    stores = [(i, s_) for i, s_ in enumerate(body) if isinstance(s_, ast.Assign) and isinstance(s_.targets[0], ast.Subscript) and norm(s_.targets[0].value) in ("self.qubit_map", "self")]
+    if len(stores) != 1:
+        raise AnchorError(aq.short, f"{len(stores)} top-level stores of the new name -> index: outside the tables")
+    i, s_ = stores[0]
+    v = norm(s_.value).replace(" ", "")
+    ok = (i < inc[0] and v in old) or (i > inc[0] and (v == f"{cnt}-1" or (v in old and v != cnt)))
+    ctx.check(ok, "MP-inputs-first", aq, "the new name is mapped to the next free index", norm(s_), f"`{norm(s_)}` ({'before' if i < inc[0] else 'after'} the count is updated) does not record the number of qubits before the call as the new qubit's index", s_)
+    rets = q.returns(aq)
+    if len(rets) != 1:
+        raise AnchorError(aq.short, "expected one return")
+    r = rets[0]
+    ri = q.stmt_index(body, r)
+    v = norm(r.value).replace(" ", "")
+    ok = ri is not None and ((ri > inc[0] and (v == f"{cnt}-1" or (v in old and v != cnt))) or (ri < inc[0] and v in old))
+    ctx.check(ok, "MP-inputs-first", aq, "add_qubit returns the index it assigned", norm(r), f"`{norm(r)}` is not the index recorded for the new qubit", r)
